@@ -368,7 +368,7 @@ pub fn run(a: &Args, rep: &mut Report) {
         rep.case(Some(fnv(&[&c.a[..], &c.b[..], &[c.kind, c.null, c.off as u8, c.len as u8]].concat())));
         let w = json!({"helper": name, "a": hex(&c.a[..c.a.len().min(64)]), "b": hex(&c.b[..c.b.len().min(64)]), "off": c.off, "len": c.len, "null": c.null, "end_aligned": c.end_aligned});
         match e {
-            CaseEnd::Died(s) => viol(rep, name, &format!("signal-{}", sys::signame(*s)), format!("{name} was killed by {} on arguments that respect its preconditions", sys::signame(*s)), w),
+            CaseEnd::Died(s, _) => viol(rep, name, &format!("signal-{}", sys::signame(*s)), format!("{name} was killed by {} on arguments that respect its preconditions", sys::signame(*s)), w),
             CaseEnd::CpuTimeout => viol(rep, name, "diverged", format!("{name} did not return"), w),
             CaseEnd::Inconclusive(s) => rep.inconclusive(format!("{name}: {s}")),
             CaseEnd::Done(b) => {
